@@ -21,7 +21,14 @@ import (
 	"golang.org/x/tools/go/ssa/ssautil"
 )
 
-const repoRoot = "/repo"
+// repoRoot is the tree under check: /repo, unless VERIF_REPO points at another checkout of it (used only to try
+// seeded changes in a scratch worktree while /repo stays untouched)
+var repoRoot = func() string {
+	if r := os.Getenv("VERIF_REPO"); r != "" {
+		return r
+	}
+	return "/repo"
+}()
 
 var replayHookOverlay map[string]string
 var replayHooks []hookInfo
